@@ -82,6 +82,12 @@ func (tr *truth) visit(v reflect.Value, parent *info, byValue bool) {
 				in.str = s.String()
 			}
 			tr.order = append(tr.order, in)
+			// what it refers to (pointers, interfaces and slices in its fields) is part of the tree all the same
+			for i := 0; i < e.NumField(); i++ {
+				if e.Type().Field(i).IsExported() {
+					tr.visit(e.Field(i), in, true)
+				}
+			}
 			return
 		}
 		tr.visit(v.Elem(), parent, false)
